@@ -46,7 +46,7 @@ var c01Fns = []*c01Fn{
 	{Name: "fBytes", Dirs: "io"}, {Name: "fUBytes", Dirs: "io"}, {Name: "fVecInt", Dirs: "io"}, {Name: "fVecStr", Dirs: "io"},
 	{Name: "fVecVec", Dirs: "io"}, {Name: "fMapSS", Dirs: "io"}, {Name: "fMapIV", Dirs: "io"}, {Name: "fItem", Dirs: "io"},
 	{Name: "fBig", Dirs: "io"}, {Name: "fVecItem", Dirs: "io"}, {Name: "fMapItem", Dirs: "io"},
-	{Name: "mixed", Dirs: "ioioioioi"}, {Name: "many", Dirs: "iiiiiiiiiiiiiiiioooooo"},
+	{Name: "deep", Dirs: "oi"}, {Name: "mixed", Dirs: "ioioioioi"}, {Name: "many", Dirs: "iiiiiiiiiiiiiiiioooooo"},
 }
 var c01FnByName = map[string]*c01Fn{}
 var c01FnsInit bool
@@ -126,6 +126,25 @@ type c01Ctl struct {
 	ErrCode            int32
 	ErrMsg             string
 	EmptyOuts          bool
+	Big                int
+}
+
+// c01Inflate gives a string / byte vector value exactly n bytes (packets larger than the transports' read buffers)
+func c01Inflate(rng *rand.Rand, v reflect.Value, n int) {
+	b := make([]byte, n)
+	rng.Read(b)
+	switch {
+	case v.Kind() == reflect.String:
+		v.SetString(string(b))
+	case v.Kind() == reflect.Slice && v.Type().Elem().Kind() == reflect.Uint8:
+		v.SetBytes(b)
+	case v.Kind() == reflect.Slice && v.Type().Elem().Kind() == reflect.Int8:
+		x := make([]int8, n)
+		for i := range b {
+			x[i] = int8(b[i])
+		}
+		v.Set(reflect.ValueOf(x))
+	}
 }
 
 type c01Plan struct {
@@ -168,12 +187,18 @@ func c01MakePlan(f *c01Fn, key string, ctl c01Ctl) c01Plan {
 	if f.retT != nil {
 		p.ret = reflect.New(f.retT).Elem()
 		fillRandom(rng, p.ret, 3)
+		if ctl.Big > 0 {
+			c01Inflate(rng, p.ret, ctl.Big)
+		}
 	}
 	for i, t := range f.argT {
 		if f.Dirs[i] == 'o' {
 			v := reflect.New(t).Elem()
 			if !ctl.EmptyOuts {
 				fillRandom(rng, v, 3)
+				if ctl.Big > 0 {
+					c01Inflate(rng, v, ctl.Big+1)
+				}
 			}
 			p.outs = append(p.outs, v)
 		}
@@ -228,8 +253,25 @@ func c01Emit(id int32, s string) {
 // ---------- the implementation of the generated servant interface ----------
 type c01Imp struct{}
 
+// ---------- high-contention burst: many goroutines, many small calls, unique payloads, one proxy ----------
+const c01BurstBase = int32(1 << 24)
+const c01BurstKey = int32(0x5a5a5a5a)
+
+var (
+	c01BurstOn     int32
+	c01BurstCounts []int32 // invocations of the implementation per payload
+)
+
 func c01Serve(ctx context.Context, fn string, ins []interface{}, outs []interface{}, ret interface{}) error {
 	atomic.AddInt64(&c01ImplRuns, 1)
+	if atomic.LoadInt32(&c01BurstOn) != 0 && fn == "fInt" {
+		if a, ok := ins[0].(int32); ok && a >= c01BurstBase && int(a-c01BurstBase) < len(c01BurstCounts) {
+			atomic.AddInt32(&c01BurstCounts[a-c01BurstBase], 1)
+			*(outs[0].(*int32)) = ^a
+			*(ret.(*int32)) = a ^ c01BurstKey
+			return nil
+		}
+	}
 	f := c01FnByName[fn]
 	vs := make([]reflect.Value, len(ins))
 	for i, x := range ins {
@@ -374,6 +416,10 @@ func (c01Imp) FVecItem(ctx context.Context, a []e2e.Item, o *[]e2e.Item) (r []e2
 }
 func (c01Imp) FMapItem(ctx context.Context, a map[string]e2e.Item, o *map[string]e2e.Item) (r map[string]e2e.Item, err error) {
 	err = c01Serve(ctx, "fMapItem", ifs{a}, ifs{o}, &r)
+	return
+}
+func (c01Imp) Deep(ctx context.Context, o *e2e.Node, a int32) (r int32, err error) {
+	err = c01Serve(ctx, "deep", ifs{a}, ifs{o}, &r)
 	return
 }
 func (c01Imp) Mixed(ctx context.Context, a int32, o1 *string, b string, o2 *[]int32, c int64, o3 *e2e.Item, d *e2e.Item, o4 *map[string]string, e bool) (r int32, err error) {
@@ -663,6 +709,68 @@ func c01StartServer(dir string) (proxy *e2e.E2E, err error) {
 	return nil, errors.New("unreachable")
 }
 
+// c01Chain is a Node nested n structs deep: on the wire struct > list > struct > ... = 2n-1 nesting levels.
+func c01Chain(n int) e2e.Node {
+	nd := e2e.Node{V: int32(n)}
+	for i := n - 1; i >= 1; i-- {
+		nd = e2e.Node{V: int32(i), Kids: []e2e.Node{nd}}
+	}
+	return nd
+}
+
+// c01WireDepth is the nesting depth of the encoding of v as a required member (what skipField has to descend):
+// structs, non-empty vectors and maps count one level each; members the encoder omits do not count.
+func c01WireDepth(v reflect.Value) int {
+	switch v.Kind() {
+	case reflect.Struct:
+		d := 0
+		for _, f := range fieldsOf(v.Type()) {
+			fv := v.Field(f.Idx)
+			if !f.Req && (fv.Kind() == reflect.Slice || fv.Kind() == reflect.Map) && fv.Len() == 0 {
+				continue
+			}
+			if x := c01WireDepth(fv); x > d {
+				d = x
+			}
+		}
+		return 1 + d
+	case reflect.Slice, reflect.Array:
+		if k := v.Type().Elem().Kind(); k == reflect.Int8 || k == reflect.Uint8 {
+			return 0
+		}
+		d := 0
+		for i := 0; i < v.Len(); i++ {
+			if x := c01WireDepth(v.Index(i)); x > d {
+				d = x
+			}
+		}
+		return 1 + d
+	case reflect.Map:
+		d := 0
+		for _, mk := range v.MapKeys() {
+			if x := c01WireDepth(mk); x > d {
+				d = x
+			}
+			if x := c01WireDepth(v.MapIndex(mk)); x > d {
+				d = x
+			}
+		}
+		return 1 + d
+	}
+	return 0
+}
+
+// c01Unskippable: the dispatcher cannot pass over one of the caller's out variables (known finding; the call fails
+// before the implementation is reached)
+func c01Unskippable(p *c01Prepared) bool {
+	for i := range p.f.argT {
+		if p.f.Dirs[i] == 'o' && strings.ContainsRune(p.f.Dirs[i:], 'i') && c01WireDepth(p.vals[i]) > codec.VerifMaxSkipDepth() {
+			return true
+		}
+	}
+	return false
+}
+
 // ---------- one call ----------
 type c01Prepared struct {
 	f      *c01Fn
@@ -688,6 +796,12 @@ func c01Prepare(proxy *e2e.E2E, k *c01Call) *c01Prepared {
 		v := reflect.New(t) // pointer to a fresh variable
 		if f.Dirs[i] == 'i' || k.Prior {
 			fillRandom(rng, v.Elem(), 3)
+			if f.Dirs[i] == 'i' && k.Big > 0 {
+				c01Inflate(rng, v.Elem(), k.Big+2)
+			}
+		}
+		if f.Dirs[i] == 'o' && k.DeepPrior > 0 && t == reflect.TypeOf(e2e.Node{}) {
+			v.Elem().Set(reflect.ValueOf(c01Chain(k.DeepPrior)))
 		}
 		cp := reflect.New(t)
 		cp.Elem().Set(v.Elem())
@@ -710,7 +824,7 @@ func c01Prepare(proxy *e2e.E2E, k *c01Call) *c01Prepared {
 		p.opts = append(p.opts, p.stMap)
 	}
 	p.key = c01Key(f.Name, p.ins, p.ctxMap, p.stMap)
-	ctl := c01Ctl{RCtx: k.RCtx, RSt: k.RSt, ErrKind: k.ErrKind, ErrCode: k.ErrCode, ErrMsg: string(k.ErrMsg), EmptyOuts: k.EmptyOuts}
+	ctl := c01Ctl{RCtx: k.RCtx, RSt: k.RSt, ErrKind: k.ErrKind, ErrCode: k.ErrCode, ErrMsg: string(k.ErrMsg), EmptyOuts: k.EmptyOuts, Big: k.Big}
 	c01Mu.Lock()
 	if old, ok := c01Ctls[p.key]; ok {
 		ctl = old // two callers passing identical inputs get the identical behaviour
@@ -825,6 +939,14 @@ func c01Judge(cfg c01Cfg, k *c01Call, p *c01Prepared, o c01Outcome) {
 		code := tars.GetErrorCode(o.err)
 		k.Res = fmt.Sprintf("(CErr %s %s false)", coqZ(int64(code)), c01Str(o.err.Error()))
 		if p.plan.err == nil {
+			// the request carries the caller's out variables; the dispatcher passes over those in front of an in argument
+			// with skipField, which refuses nesting deeper than maxSkipDepth
+			for i := range p.f.argT {
+				if p.f.Dirs[i] == 'o' && strings.ContainsRune(p.f.Dirs[i:], 'i') && c01WireDepth(p.vals[i]) > codec.VerifMaxSkipDepth() {
+					fail("spurious-error", "prefilled-out-argument-deeper-than-skip-limit", "%s: the implementation would succeed but the caller got error code %d %q: out variable %d holds a value nested %d levels deep (skip limit %d) and is encoded in front of an in argument", k.Fn, code, o.err.Error(), i, c01WireDepth(p.vals[i]), codec.VerifMaxSkipDepth())
+					return
+				}
+			}
 			fail("spurious-error", cfg.String(), "%s: the implementation succeeded but the caller got error code %d %q", k.Fn, code, o.err.Error())
 			return
 		}
@@ -1008,6 +1130,78 @@ func c01Probe(proxy *e2e.E2E) error {
 	return nil
 }
 
+// c01RunBurst: g goroutines make n calls each of fInt(a, out o) with a payload no other call uses; every caller must
+// get the answer to its own payload (a reply routed to another caller, a lost reply, an implementation invoked twice
+// or never all show up), and the relay must have seen every request id once.
+func c01RunBurst(proxy *e2e.E2E, g, n int) (fails []string) {
+	if runtime.GOMAXPROCS(0) < 4 {
+		runtime.GOMAXPROCS(4)
+	}
+	c01BurstCounts = make([]int32, g*n)
+	atomic.StoreInt32(&c01BurstOn, 1)
+	defer atomic.StoreInt32(&c01BurstOn, 0)
+	proxy.TarsSetTimeout(2000)
+	defer proxy.TarsSetTimeout(20000)
+	var mu sync.Mutex
+	var wrong, lost, failed int
+	first := ""
+	note := func(kind *int, format string, a ...interface{}) {
+		mu.Lock()
+		*kind++
+		if first == "" {
+			first = fmt.Sprintf(format, a...)
+		}
+		mu.Unlock()
+	}
+	var wg sync.WaitGroup
+	start := make(chan struct{})
+	for gi := 0; gi < g; gi++ {
+		wg.Add(1)
+		go func(gi int) {
+			defer wg.Done()
+			<-start
+			for i := 0; i < n; i++ {
+				a := c01BurstBase + int32(gi*n+i)
+				var o int32
+				r, err := proxy.FIntWithContext(context.Background(), a, &o)
+				switch {
+				case err != nil && strings.Contains(err.Error(), "timeout"):
+					note(&lost, "caller %d call %d (payload %d): no reply: %v", gi, i, a, err)
+				case err != nil:
+					note(&failed, "caller %d call %d (payload %d): error %v", gi, i, a, err)
+				case r != a^c01BurstKey || o != ^a:
+					note(&wrong, "caller %d call %d (payload %d): got return %d out %d, the answer to payload %d", gi, i, a, r, o, r^c01BurstKey)
+				}
+			}
+		}(gi)
+	}
+	close(start)
+	wg.Wait()
+	time.Sleep(20 * time.Millisecond)
+	if wrong > 0 {
+		fails = append(fails, fmt.Sprintf("e2e/concurrent-burst/reply-of-another-call\x00%d of %d calls (%d callers x %d) returned the answer to another caller's payload; first: %s", wrong, g*n, g, n, first))
+	}
+	if lost > 0 {
+		fails = append(fails, fmt.Sprintf("e2e/concurrent-burst/call-lost\x00%d of %d calls (%d callers x %d) got no reply; first: %s", lost, g*n, g, n, first))
+	}
+	if failed > 0 {
+		fails = append(fails, fmt.Sprintf("e2e/concurrent-burst/spurious-error\x00%d of %d calls (%d callers x %d) failed; first: %s", failed, g*n, g, n, first))
+	}
+	twice, never := 0, 0
+	for i := range c01BurstCounts {
+		switch c := atomic.LoadInt32(&c01BurstCounts[i]); {
+		case c == 0:
+			never++
+		case c > 1:
+			twice++
+		}
+	}
+	if twice > 0 || (never > 0 && lost == 0 && failed == 0) {
+		fails = append(fails, fmt.Sprintf("e2e/concurrent-burst/invocations\x00the implementation ran more than once for %d payloads and never for %d of %d", twice, never, g*n))
+	}
+	return fails
+}
+
 func c01ChildMain(inPath, outPath string) {
 	c01InitFns()
 	b, err := os.ReadFile(inPath)
@@ -1041,12 +1235,25 @@ func c01ChildMain(inPath, outPath string) {
 	go c01Watchdog()
 	out := c01ChildOut{Failures: []Failure{}, Stats: map[string]int{}}
 	expectSeen := map[string]int{}
+	burstCalls := 0
 	addFail := func(ci int, sig, desc string) {
 		out.Failures = append(out.Failures, Failure{Sig: sig, Desc: desc, Replay: map[string]interface{}{"case_index": ci}})
 	}
 	for ci := range cases {
 		cs := &cases[ci]
 		atomic.StoreInt64(&c01CaseStart, time.Now().UnixNano())
+		if cs.Burst != nil {
+			t0 := time.Now()
+			for _, f := range c01RunBurst(proxy, cs.Burst.G, cs.Burst.N) {
+				parts := strings.SplitN(f, "\x00", 2)
+				addFail(ci, parts[0], parts[1])
+				cs.Burst.Fails = append(cs.Burst.Fails, parts[0]+": "+parts[1])
+			}
+			cs.Burst.Ms = float64(time.Since(t0).Milliseconds())
+			burstCalls += cs.Burst.G * cs.Burst.N
+			out.Cases = append(out.Cases, *cs)
+			continue
+		}
 		c01Mu.Lock()
 		c01Ctls = map[string]c01Ctl{} // the server is quiescent between batches
 		c01Mu.Unlock()
@@ -1085,6 +1292,9 @@ func c01ChildMain(inPath, outPath string) {
 		want := map[string]int{}
 		wantOneWay := map[string]bool{}
 		for i, p := range preps {
+			if c01Unskippable(p) {
+				continue
+			}
 			want[p.key]++
 			if cs.Calls[i].OneWay {
 				wantOneWay[p.key] = true
@@ -1152,6 +1362,9 @@ func c01ChildMain(inPath, outPath string) {
 			for j := range k.Fails {
 				k.Fails[j] = strings.Replace(k.Fails[j], "\x00", ": ", 1)
 			}
+			if k.NoModel { // too large for the model evaluation: monitors only
+				k.Sig, k.Args, k.Ins, k.Plan, k.Res = "", "", "", "", ""
+			}
 		}
 		// filter / implementation event order
 		if len(preps) == 1 {
@@ -1166,7 +1379,7 @@ func c01ChildMain(inPath, outPath string) {
 				}
 			}
 			k.Events = "(Some [" + strings.Join(gotCoq, "; ") + "])"
-			exp := c01ExpectedFilterEvents(cfg, true)
+			exp := c01ExpectedFilterEvents(cfg, !c01Unskippable(preps[0]))
 			if k.OneWay {
 				// a one-way call returns without waiting for the server: only the order within each side is determined
 				got = append(c01SideEvents(got, true), c01SideEvents(got, false)...)
@@ -1243,7 +1456,7 @@ func c01ChildMain(inPath, outPath string) {
 			addFail(len(cases)-1, "e2e/request-id/reused", fmt.Sprintf("request id %d was used by %d requests of this run", id, n))
 		}
 	}
-	total := 0
+	total := burstCalls
 	for _, c := range cases {
 		total += len(c.Calls)
 	}
